@@ -239,7 +239,7 @@ struct W {
     }
     static rc::Gen<Case> gen()
     {
-        const uint64_t mx = N == 2 ? 9 : 5;
+        const uint64_t mx = N == 2 ? 9 : N == 3 ? 5 : N == 4 ? 4 : 3;
         return rc::gen::exec([mx] {
             Case c;
             for (size_t k = 0; k < N; ++k) {
@@ -343,6 +343,10 @@ void register_all()
     reg_layout<Lay::morton_bmi2, 2>();
     reg_layout<Lay::morton_port, 3>();
     reg_layout<Lay::hilbert, 2>();
+    // the generic (N >= 4) branch of the linear interpolator is a separate code path
+    reg_layout<Lay::strided, 4>();
+    W<Lay::morton_bmi2, Ip::lin, true, 4>::reg();
+    W<Lay::strided, Ip::lin, false, 5>::reg();
 }
 }   // namespace
 VF_MAIN(register_all)
